@@ -759,6 +759,34 @@ func envSeedOf(seed int64, c envCase, idx int) int64 {
 	return int64(binary.BigEndian.Uint64(h[:8]) >> 1)
 }
 
+// envSignTx builds and signs the go-ethereum transaction of the drawn fields.
+func envSignTx(f *envFields, key *ecdsa.PrivateKey) (*ethtypes.Transaction, envStage) {
+	var inner ethtypes.TxData
+	var signer ethtypes.Signer
+	switch f.typ {
+	case "legacy":
+		inner = &ethtypes.LegacyTx{Nonce: f.nonce, GasPrice: f.gasPrice, Gas: f.gas, To: f.to, Value: f.value, Data: f.data}
+		if f.sig == "unprotected" {
+			signer = ethtypes.HomesteadSigner{}
+		} else {
+			signer = ethtypes.NewEIP155Signer(f.chain)
+		}
+	case "accesslist":
+		inner = &ethtypes.AccessListTx{ChainID: f.chain, Nonce: f.nonce, GasPrice: f.gasPrice, Gas: f.gas, To: f.to,
+			Value: f.value, Data: f.data, AccessList: f.access}
+		signer = ethtypes.NewEIP2930Signer(f.chain)
+	case "dynamic":
+		inner = &ethtypes.DynamicFeeTx{ChainID: f.chain, Nonce: f.nonce, GasTipCap: f.tip, GasFeeCap: f.cap, Gas: f.gas,
+			To: f.to, Value: f.value, Data: f.data, AccessList: f.access}
+		signer = ethtypes.NewLondonSigner(f.chain)
+	default:
+		return nil, envStage{false, "unknown type " + f.typ}
+	}
+	var tx *ethtypes.Transaction
+	st := envTry(func() (err error) { tx, err = ethtypes.SignNewTx(key, signer, inner); return })
+	return tx, st
+}
+
 func envelopeRunCase(ec *envCodec, c envCase, scn int) M {
 	seed := *c.Seed
 	r := rand.New(rand.NewSource(seed))
@@ -792,30 +820,7 @@ func envelopeRunCase(ec *envCodec, c envCase, scn int) M {
 	line["base"] = envBig(f.base)
 
 	// 1. the signed go-ethereum transaction
-	var inner ethtypes.TxData
-	var signer ethtypes.Signer
-	switch f.typ {
-	case "legacy":
-		inner = &ethtypes.LegacyTx{Nonce: f.nonce, GasPrice: f.gasPrice, Gas: f.gas, To: f.to, Value: f.value, Data: f.data}
-		if f.sig == "unprotected" {
-			signer = ethtypes.HomesteadSigner{}
-		} else {
-			signer = ethtypes.NewEIP155Signer(f.chain)
-		}
-	case "accesslist":
-		inner = &ethtypes.AccessListTx{ChainID: f.chain, Nonce: f.nonce, GasPrice: f.gasPrice, Gas: f.gas, To: f.to,
-			Value: f.value, Data: f.data, AccessList: f.access}
-		signer = ethtypes.NewEIP2930Signer(f.chain)
-	case "dynamic":
-		inner = &ethtypes.DynamicFeeTx{ChainID: f.chain, Nonce: f.nonce, GasTipCap: f.tip, GasFeeCap: f.cap, Gas: f.gas,
-			To: f.to, Value: f.value, Data: f.data, AccessList: f.access}
-		signer = ethtypes.NewLondonSigner(f.chain)
-	default:
-		line["sign"] = envStage{false, "unknown type " + f.typ}
-		return line
-	}
-	var tx *ethtypes.Transaction
-	st := envTry(func() (err error) { tx, err = ethtypes.SignNewTx(key, signer, inner); return })
+	tx, st := envSignTx(f, key)
 	line["sign"] = st
 	if !st.Ok {
 		return line
